@@ -41,6 +41,10 @@ let c17_valid (line : string) : string =
         if not acyclic then "na"
         (* same_value / by_name assume what 5.4.2 and 5.6.3 guarantee: no repeated argument or object field *)
         else if not (xv_r_argument_unique s d && xv_r_input_field_unique s d) then "na-dup"
+        (* from_ast.rs drops undefined fields, leaf fields with a sub-selection and fragments on undefined types:
+           the two are compared on documents that are built without loss *)
+        else if not (xv_r_fields_defined s d && xv_r_leaf_selections s d && xv_r_fragment_type_exists s d
+                     && xv_r_fragment_on_composite s d) then "na-dropped"
         else match mx_document_ok s d, xv_merge_verdict s d with
           | Some a, Some b -> if a = b then "agree" else "differ"
           | _, _ -> "fuel" in
